@@ -42,7 +42,7 @@ def rule_a(repo, chk):
     n = 0
     for s in stores:
         ok = s['key'] in EXPECTED_STORES
-        n += ok
+        n += 1
         chk.ob('C08.a', ok, s['node'], 'process-lifetime store %s (%s) is triaged' % (s['key'], s['kind']),
                EXPECTED_STORES.get(s['key'], 'UNLISTED state that survives from one Script to the next: %s' % '; '.join(s['why'][:2])),
                key='store|%s' % s['key'])
